@@ -418,7 +418,9 @@ Definition errors_mw (m : emode) (inner : st -> hres) (x : st) : hres :=
     match inner x with
     | HPan y => recovery m y
     | HRet s e y =>
-        if e && match m with EDebug => true | _ => false end then
+        (* the debug branch writes only where an error response is asked for; below 400
+           the error is logged *)
+        if e && match m with EDebug => true | _ => false end && (400 <=? s) then
           match bnd (h_wh s (set_chdr y (hset (chdr y) K_CT V_TEXT))) (h_wr (errmsg s)) with
           | Done z => HRet 0 true z
           | Pan z => recovery m z
